@@ -201,8 +201,45 @@ def discharge(queries, budget_s=10.0, procs=None, want_model=True, portfolio=Tru
     return out
 
 
-def quick_unsat(hyps, timeout_ms=250):
-    """path pruning: True only when the path condition is definitely unsat"""
+def _ground(h):
+    """no quantifier anywhere inside"""
+    todo, seen = [h], set()
+    while todo:
+        t = todo.pop()
+        if t.get_id() in seen:
+            continue
+        seen.add(t.get_id())
+        if z3.is_quantifier(t):
+            return False
+        todo.extend(t.children())
+    return True
+
+
+_GROUND_CACHE = {}
+
+
+def quick_unsat(hyps, timeout_ms=250, full=False):
+    """path pruning: True only when the path condition is definitely unsat.  Two stages: the quantifier-free
+    hypotheses alone first (a subset that is unsat makes the whole unsat; a model of it is taken as "feasible" -
+    exploring a path that only quantifier instantiation would have refuted costs time, never soundness), the full set
+    only when that stage is undecided."""
+    if not full and os.environ.get('PYVC_FEAS', 'ground') == 'ground':
+        g = []
+        for h in hyps:
+            k = h.get_id()
+            if k not in _GROUND_CACHE:
+                _GROUND_CACHE[k] = _ground(h)
+            if _GROUND_CACHE[k]:
+                g.append(h)
+        s = z3.Solver()
+        s.set('timeout', 100)
+        for h in g:
+            s.add(h)
+        r = s.check()
+        if r == z3.unsat:
+            return True
+        if r == z3.sat:
+            return False
     s = z3.Solver()
     s.set('timeout', timeout_ms)
     for h in hyps:
